@@ -8,12 +8,25 @@ package ioutils
 // often one reader is closed, its hook runs at most once; and the first Close does run it.
 //@ func verifCloseTwice
 //@ mode effects
+//@ requires !specHookDone(r)
 //@ inline (*readCloserWithCloseHook).Close
 //@ effect[C36:hook-at-most-once] every r.onClose() forbids before r.onClose()
 //@ ensures[C36:first-close-runs-hook] r.onClose != nil ==> called(r.onClose)
 
 //@ func verifSeekCloseTwice
 //@ mode effects
+//@ requires !specSeekHookDone(r)
 //@ inline (*readSeekCloserWithCloseHook).Close
 //@ effect[C36:hook-at-most-once] every r.onClose() forbids before r.onClose()
 //@ ensures[C36:first-close-runs-hook] r.onClose != nil ==> called(r.onClose)
+
+// One Close: the hook runs only if it has not run before, and afterwards the reader is marked.
+//@ func (*readCloserWithCloseHook).Close
+//@ mode effects
+//@ effect[C36:hook-only-on-first-close] every r.onClose() where !specHookDone(r)
+//@ ensures[C36:close-marks-reader] r.onClose != nil ==> specHookDone(r)
+
+//@ func (*readSeekCloserWithCloseHook).Close
+//@ mode effects
+//@ effect[C36:hook-only-on-first-close] every r.onClose() where !specSeekHookDone(r)
+//@ ensures[C36:close-marks-reader] r.onClose != nil ==> specSeekHookDone(r)
